@@ -22,11 +22,11 @@ SignNew(n) == /\ n = nc
               /\ (n = 0 /\ nr = 0) \/ (n = nr + 1)
               /\ nc' = n + 1
               /\ sgd' = sgd \cup {n}
-              /\ bad' = (bad \/ \E j \in Nat : j + 2 <= n /\ j \notin rvk)
+              /\ bad' = (bad \/ \E j \in 0..n : j + 2 <= n /\ j \notin rvk)
               /\ UNCHANGED <<nr, rvk>>
 SignRetry(n) == /\ n + 1 = nc
                 /\ sgd' = sgd \cup {n}
-                /\ bad' = (bad \/ \E j \in Nat : j + 2 <= n /\ j \notin rvk)
+                /\ bad' = (bad \/ \E j \in 0..n : j + 2 <= n /\ j \notin rvk)
                 /\ UNCHANGED <<nc, nr, rvk>>
 RevokeNew(n) == /\ n = nr /\ n + 2 = nc
                 /\ nr' = n + 1
